@@ -41,7 +41,7 @@ package genetics
 //@   requires sortedNodesLE(nodes)
 //@   ensures [len] len(result) == len(nodes) + 1
 //@   ensures [sorted] sortedNodesLE(result)
-//@   ensures [strict] sortedNodesLT(nodes) && (forall i :: 0 <= i && i < len(nodes) ==> nodes[i].Id != n.Id) ==> sortedNodesLT(result)
+//@   ensures [strict] old(sortedNodesLT(nodes) && (forall i :: 0 <= i && i < len(nodes) ==> nodes[i].Id != n.Id)) ==> sortedNodesLT(result)
 //@   ensures [insert] exists k :: 0 <= k && k < len(result) && result[k] == n && (forall i :: 0 <= i && i < k ==> result[i] == old(nodes[i])) && (forall i :: k < i && i < len(result) ==> result[i] == old(nodes[i-1]))
 //@   ensures [keep] unchanged(nodes)
 //@   ensures [shift] forall i :: 0 <= i && i < len(nodes) ==> old(nodes[i]) == result[i] || old(nodes[i]) == result[i+1]
@@ -627,59 +627,85 @@ package genetics
 //@   mode nosafety
 //@   assume_pre mateTraits, NewNNodeCopy, NewGeneCopy, nodeInsert, mateModules, newGenome
 //@   requires g != nil && og != nil && nonNilNodes(og.Nodes)
+//@   requires [uniqueNodeIds] forall i, j :: 0 <= i && i < j && j < len(og.Nodes) ==> og.Nodes[i].Id != og.Nodes[j].Id
 //@   assert [io.afterIn] forall i :: 0 <= i && i < len(og.Nodes) && isIO(og.Nodes[i]) ==> (exists j :: 0 <= j && j < len(result) && result[j].Id == og.Nodes[i].Id) @ after 2 nodeInsert
 //@   assert [io.afterOut] forall i :: 0 <= i && i < len(og.Nodes) && isIO(og.Nodes[i]) ==> (exists j :: 0 <= j && j < len(result) && result[j].Id == og.Nodes[i].Id) @ after 3 nodeInsert
+//@   assert [strict.beforeIn] sortedNodesLT(arg0) && (forall i :: 0 <= i && i < len(arg0) ==> arg0[i].Id != arg1.Id) @ before 2 nodeInsert
+//@   assert [strict.beforeOut] sortedNodesLT(arg0) && (forall i :: 0 <= i && i < len(arg0) ==> arg0[i].Id != arg1.Id) @ before 3 nodeInsert
+//@   assert [strict.afterIn] sortedNodesLT(result) @ after 2 nodeInsert
+//@   assert [strict.afterOut] sortedNodesLT(result) @ after 3 nodeInsert
 //@   assert [io.atCopy] nonNilNodes(newNodes) && (forall i :: 0 <= i && i < len(og.Nodes) && isIO(og.Nodes[i]) ==> (exists j :: 0 <= j && j < len(newNodes) && newNodes[j].Id == og.Nodes[i].Id)) @ before 1 NewGeneCopy
 //@   ensures [freshChild] result1 == nil ==> result0 != nil && fresh(result0)
+//@   ensures [nodesUnique] result1 == nil ==> sortedNodesLT(result0.Nodes)
 //@   ensures [ioNodes] result1 == nil ==> (forall i :: 0 <= i && i < len(og.Nodes) && isIO(og.Nodes[i]) ==> (exists j :: 0 <= j && j < len(result0.Nodes) && result0.Nodes[j].Id == og.Nodes[i].Id))
 //@   loop 1:
 //@     invariant -1 <= #idx && #idx < len(og.Nodes) && fresh(newNodes) && nonNilNodes(newNodes)
 //@     invariant [io] forall i :: 0 <= i && i <= #idx && isIO(og.Nodes[i]) ==> (exists j :: 0 <= j && j < len(newNodes) && newNodes[j].Id == og.Nodes[i].Id)
 //@     invariant [parentNodes] forall b :: wasAllocated(b) ==> Mem[*network.NNode][b] == old(Mem[*network.NNode][b])
 //@     invariant [parentIds] forall x *network.NNode :: wasAllocated(x) ==> x.Id == old(x.Id) && x.NeuronType == old(x.NeuronType)
+//@     invariant [strict] sortedNodesLT(newNodes)
+//@     invariant [notLater] forall j, i :: 0 <= j && j < len(newNodes) && #idx < i && i < len(og.Nodes) ==> newNodes[j].Id != og.Nodes[i].Id
 //@   loop 2:
 //@     invariant fresh(newNodes) && nonNilNodes(newNodes)
 //@     invariant [io] forall i :: 0 <= i && i < len(og.Nodes) && isIO(og.Nodes[i]) ==> (exists j :: 0 <= j && j < len(newNodes) && newNodes[j].Id == og.Nodes[i].Id)
 //@     invariant [parentNodes] forall b :: wasAllocated(b) ==> Mem[*network.NNode][b] == old(Mem[*network.NNode][b])
 //@     invariant [parentIds] forall x *network.NNode :: wasAllocated(x) ==> x.Id == old(x.Id) && x.NeuronType == old(x.NeuronType)
+//@     invariant [strict] sortedNodesLT(newNodes)
 //@   loop 3:
 //@     invariant true
 //@   loop 4:
 //@     invariant nonNilNodes(newNodes)
 //@     invariant [io] forall i :: 0 <= i && i < len(og.Nodes) && isIO(og.Nodes[i]) ==> (exists j :: 0 <= j && j < len(newNodes) && newNodes[j].Id == og.Nodes[i].Id)
+//@     invariant [strict] sortedNodesLT(newNodes)
+//@     invariant [inNotYet] -1 <= #idx && newInNode == nil && (forall j :: 0 <= j && j <= #idx ==> newNodes[j].Id != inNode.Id)
 //@   loop 5:
 //@     invariant nonNilNodes(newNodes)
 //@     invariant [io] forall i :: 0 <= i && i < len(og.Nodes) && isIO(og.Nodes[i]) ==> (exists j :: 0 <= j && j < len(newNodes) && newNodes[j].Id == og.Nodes[i].Id)
+//@     invariant [strict] sortedNodesLT(newNodes)
+//@     invariant [outNotYet] -1 <= #idx && newOutNode == nil && (forall j :: 0 <= j && j <= #idx ==> newNodes[j].Id != outNode.Id)
 //@ func (*Genome).mateSinglePoint
 //@   props C02 C10 C04 C01
 //@   mode nosafety
 //@   assume_pre mateTraits, NewNNodeCopy, NewGeneCopy, nodeInsert, mateModules, newGenome
 //@   requires g != nil && og != nil && nonNilNodes(og.Nodes)
+//@   requires [uniqueNodeIds] forall i, j :: 0 <= i && i < j && j < len(og.Nodes) ==> og.Nodes[i].Id != og.Nodes[j].Id
 //@   requires [nonEmptyParents] len(g.Genes) > 0 && len(og.Genes) > 0
 //@   assert [io.afterIn] forall i :: 0 <= i && i < len(og.Nodes) && isIO(og.Nodes[i]) ==> (exists j :: 0 <= j && j < len(result) && result[j].Id == og.Nodes[i].Id) @ after 2 nodeInsert
 //@   assert [io.afterOut] forall i :: 0 <= i && i < len(og.Nodes) && isIO(og.Nodes[i]) ==> (exists j :: 0 <= j && j < len(result) && result[j].Id == og.Nodes[i].Id) @ after 3 nodeInsert
+//@   assert [strict.beforeIn] sortedNodesLT(arg0) && (forall i :: 0 <= i && i < len(arg0) ==> arg0[i].Id != arg1.Id) @ before 2 nodeInsert
+//@   assert [strict.beforeOut] sortedNodesLT(arg0) && (forall i :: 0 <= i && i < len(arg0) ==> arg0[i].Id != arg1.Id) @ before 3 nodeInsert
+//@   assert [strict.afterIn] sortedNodesLT(result) @ after 2 nodeInsert
+//@   assert [strict.afterOut] sortedNodesLT(result) @ after 3 nodeInsert
 //@   assert [io.atCopy] nonNilNodes(newNodes) && (forall i :: 0 <= i && i < len(og.Nodes) && isIO(og.Nodes[i]) ==> (exists j :: 0 <= j && j < len(newNodes) && newNodes[j].Id == og.Nodes[i].Id)) @ before 1 NewGeneCopy
 //@   ensures [freshChild] result1 == nil ==> result0 != nil && fresh(result0)
+//@   ensures [nodesUnique] result1 == nil ==> sortedNodesLT(result0.Nodes)
 //@   ensures [ioNodes] result1 == nil ==> (forall i :: 0 <= i && i < len(og.Nodes) && isIO(og.Nodes[i]) ==> (exists j :: 0 <= j && j < len(result0.Nodes) && result0.Nodes[j].Id == og.Nodes[i].Id))
 //@   loop 1:
 //@     invariant -1 <= #idx && #idx < len(og.Nodes) && fresh(newNodes) && nonNilNodes(newNodes)
 //@     invariant [io] forall i :: 0 <= i && i <= #idx && isIO(og.Nodes[i]) ==> (exists j :: 0 <= j && j < len(newNodes) && newNodes[j].Id == og.Nodes[i].Id)
 //@     invariant [parentNodes] forall b :: wasAllocated(b) ==> Mem[*network.NNode][b] == old(Mem[*network.NNode][b])
 //@     invariant [parentIds] forall x *network.NNode :: wasAllocated(x) ==> x.Id == old(x.Id) && x.NeuronType == old(x.NeuronType)
+//@     invariant [strict] sortedNodesLT(newNodes)
+//@     invariant [notLater] forall j, i :: 0 <= j && j < len(newNodes) && #idx < i && i < len(og.Nodes) ==> newNodes[j].Id != og.Nodes[i].Id
 //@   loop 2:
 //@     invariant fresh(newNodes) && nonNilNodes(newNodes)
 //@     leave [walkedToEnd] i2 >= stopper
 //@     invariant [io] forall i :: 0 <= i && i < len(og.Nodes) && isIO(og.Nodes[i]) ==> (exists j :: 0 <= j && j < len(newNodes) && newNodes[j].Id == og.Nodes[i].Id)
 //@     invariant [parentNodes] forall b :: wasAllocated(b) ==> Mem[*network.NNode][b] == old(Mem[*network.NNode][b])
 //@     invariant [parentIds] forall x *network.NNode :: wasAllocated(x) ==> x.Id == old(x.Id) && x.NeuronType == old(x.NeuronType)
+//@     invariant [strict] sortedNodesLT(newNodes)
 //@   loop 3:
 //@     invariant true
 //@   loop 4:
 //@     invariant nonNilNodes(newNodes)
 //@     invariant [io] forall i :: 0 <= i && i < len(og.Nodes) && isIO(og.Nodes[i]) ==> (exists j :: 0 <= j && j < len(newNodes) && newNodes[j].Id == og.Nodes[i].Id)
+//@     invariant [strict] sortedNodesLT(newNodes)
+//@     invariant [inNotYet] -1 <= #idx && newInNode == nil && (forall j :: 0 <= j && j <= #idx ==> newNodes[j].Id != inNode.Id)
 //@   loop 5:
 //@     invariant nonNilNodes(newNodes)
 //@     invariant [io] forall i :: 0 <= i && i < len(og.Nodes) && isIO(og.Nodes[i]) ==> (exists j :: 0 <= j && j < len(newNodes) && newNodes[j].Id == og.Nodes[i].Id)
+//@     invariant [strict] sortedNodesLT(newNodes)
+//@     invariant [outNotYet] -1 <= #idx && newOutNode == nil && (forall j :: 0 <= j && j <= #idx ==> newNodes[j].Id != outNode.Id)
 //@ func (*Species).reproduce
 //@   props C10 C02
 //@   mode nosafety
